@@ -1,6 +1,6 @@
 #!/usr/bin/env python3
 """Generates the complex instances of the specification: the same modules with Gaussian-rational scalars (CRat instead of Rat).
-   TPS -> CTPS, UTPMachine -> CUTPMachine, MC_UTPM -> MC_CUTPM, LinAlg -> CLinAlg, Factor -> CFactor, MC_Factor -> MC_CFactor.   usage: gen_complex.py [--check]"""
+   TPS -> CTPS, UTPMachine -> CUTPMachine, MC_UTPM -> MC_CUTPM, LinAlg -> CLinAlg, Factor -> CFactor, MC_Factor -> MC_CFactor, Tracer -> CTracer, MC_Tracer -> MC_CTracer.   usage: gen_complex.py [--check]"""
 import sys, os, re
 S = os.path.join(os.path.dirname(os.path.dirname(os.path.abspath(__file__))), "spec")
 def gen():
@@ -19,7 +19,9 @@ def gen():
     out["MC_CUTPM.tla"] = "\\* GENERATED from MC_UTPM.tla by tools/gen_complex.py - do not edit\n" + m
     for src, dst, a, b in (("LinAlg", "CLinAlg", "EXTENDS NDA, TPS, FiniteSetsExt", "EXTENDS NDA, CTPS, FiniteSetsExt"),
                            ("Factor", "CFactor", "EXTENDS LinAlg", "EXTENDS CLinAlg"),
-                           ("MC_Factor", "MC_CFactor", "EXTENDS Factor, TLC, Json", "EXTENDS CFactor, TLC, Json")):
+                           ("MC_Factor", "MC_CFactor", "EXTENDS Factor, TLC, Json", "EXTENDS CFactor, TLC, Json"),
+                           ("Tracer", "CTracer", "EXTENDS Integers, Sequences, FiniteSets, TLC, TPS", "EXTENDS Integers, Sequences, FiniteSets, TLC, CTPS"),
+                           ("MC_Tracer", "MC_CTracer", "EXTENDS Tracer, Json", "EXTENDS CTracer, Json")):
         t = open(os.path.join(S, src + ".tla")).read()
         assert a in t, (src, a)
         t = re.sub(r"-+ MODULE %s -+" % src, "------------------------------- MODULE %s -------------------------------" % dst, t)
